@@ -366,3 +366,67 @@ def run(ctx):
               "metadata of results that come out of an archive is DON'T-CARE here (member naming: C10)",
               "path strings are projected structurally (split at '/' and '.'); working directory = a fresh scratch directory",
               "Carries / MetaTypeOf in Iface.tla are transcribed by hand from data_types.py")
+
+
+# --------------------------------------------------------------------------- binding demonstration
+def corrupt_demo():
+    """Record the accessor protocol of one real extraction, then corrupt one recorded field at a time:
+    TLC (IfaceTrace) must accept the recorded trace and reject every corrupted one at the corrupted event."""
+    import copy
+    from ..tlc import Scratch
+    from ..docrun import rich_doc
+    with Scratch("C04demo") as sc:
+        doc = L.enrich(rich_doc("docx", 0))
+        props = {k: L.spell_val(["a", "em", "lb"], k) for k in L.FIELDS}
+        doc["props"] = props
+        sp = {"root": "rel", "dirs": ["données"], "stem": "my file", "exts": ["tar", "docx"], "fexists": True, "dexists": True}
+        r = L.run_job({"id": "demo", "fmt": "docx", "doc": doc, "sp": sp, "props": props, "wd": str(sc / "w"), "timeout": 60})
+        if r["status"] != "ok":
+            raise MachineryError(f"demo extraction failed: {r}")
+        evs = [{k: x for k, x in e.items() if k != "msg"} for e in r["events"]]
+        base = {"id": "recorded", "hdr": r["hdr"], "ev": evs}
+
+        def first(a, **kw):
+            return next(i for i, e in enumerate(evs) if e["a"] == a and all(e.get(k) == x for k, x in kw.items()))
+        variants = [("recorded", None, None)]
+
+        def corrupt(label, idx, fn):
+            t = copy.deepcopy(base)
+            t["id"] = label
+            fn(t["ev"][idx])
+            variants.append((label, idx, t))
+        corrupt("Stream.len + 1 (length != size_bytes)", first("Stream"), lambda e: e.update(len=e["len"] + 1, len2=e["len2"] + 1))
+        corrupt("Stream.pos2 = len (second get_bytes() not rewound)", first("Stream"), lambda e: e.update(pos2=e["len"]))
+        corrupt("Table.dimcols + 1", first("Table"), lambda e: e.update(dimcols=e["dimcols"] + 1))
+        corrupt("Text.utf8 = false", first("Text"), lambda e: e.update(utf8=False))
+        corrupt("Num.n = 0 (unit number)", first("Num"), lambda e: e.update(n=0))
+        corrupt("FileMeta.ext = .tar.docx", first("FileMeta"), lambda e: e.update(ext=["", "tar", "docx"]))
+        corrupt("FileMeta.folder = other directory", first("FileMeta"), lambda e: e["dir"].update(segs=["elsewhere"]))
+        corrupt("Prop(title).got: one code point changed", first("Prop", field="title"),
+                lambda e: e.update(got=e["got"][:-1] + [e["got"][-1] + 1]))
+        corrupt("Prop(author).got: surrogate pair left unpaired", first("Prop", field="author"),
+                lambda e: e.update(got=[55357, 56832] + e["got"]))
+        corrupt("event replaced by Raise", first("Json"), lambda e: (e.clear(), e.update(a="Raise", who="x", exc="TypeError")))
+        traces = [base] + [t for _, _, t in variants[1:]]
+        br = validate("IfaceTrace", "SPECIFICATION TraceSpec\nCONSTANTS Deviations = {}\nCONSTRAINT TraceAccept\n", traces,
+                      scratch=sc, parallel=1, diagnose=0)
+        rej = [i for i, tv in enumerate(br.verdicts) if not tv.accepted]
+        where = dict(zip(rej, _diagnose([traces[i] for i in rej], sc)))
+        print(f"recorded trace: {len(evs)} events, path argument {r['parg']!r}")
+        ok = br.verdicts[0].accepted
+        for i, ((label, idx, _), tv) in enumerate(zip(variants, br.verdicts)):
+            if i == 0:
+                print(f"  recorded: {'ACCEPTED' if tv.accepted else 'REJECTED'}")
+                continue
+            at = where.get(i)
+            good = (not tv.accepted) and at == idx
+            ok = ok and good
+            print(f"  {label}: {'ACCEPTED' if tv.accepted else f'REJECTED at event {at}'} (corrupted event {idx})"
+                  + ("" if good else "   <-- UNEXPECTED"))
+        return 0 if ok else 1
+
+
+if __name__ == "__main__":
+    import sys
+    if sys.argv[1:] == ["corrupt-demo"]:
+        sys.exit(corrupt_demo())
